@@ -249,7 +249,13 @@ metadata:
 `
 	res = strings.Replace(res, "SUBJECTS", pickS(r, []string{"[foo]", "[{kind: 1, name: sa}]", "[{kind: ServiceAccount, name: sa, namespace: default}]", "{}", "[[]]", "[null]", "[{kind: ServiceAccount}]"}), 1)
 	var k string
-	switch r.Intn(15) {
+	switch r.Intn(17) {
+	case 15, 16:
+		// a patch target whose name / kind / group / version / namespace is not a valid regular expression
+		fld := pickS(r, []string{"name", "kind", "group", "version", "namespace", "name"})
+		bad := pickS(r, []string{"web(", "*", "Deploy[ment", "(?", "a{2,1}"})
+		k = "resources: [res.yaml]\n" + pickS(r, []string{"patches", "patches", "patchesJson6902"}) + ":\n- target:\n    " + fld + ": \"" + bad + "\"\n" + pickS(r, []string{"", "    name: d\n", "    kind: Deployment\n"}) +
+			"  patch: |-\n    - op: add\n      path: /metadata/annotations/x\n      value: y\n"
 	case 12:
 		// a replacement by VALUE (no source selector) whose targets are missing, null or empty
 		k = "resources: [res.yaml]\nreplacements:\n- sourceValue: " + pickS(r, []string{"x", "\"\"", "1"}) + "\n" +
@@ -290,7 +296,7 @@ metadata:
 		`{"example.com/v1.Tree": ` + k8sType(`, "parent": {"$ref": "example.com/v1.Tree"}`) + `}`,
 		`{"example.com/v1.A": ` + k8sType(`, "b": {"$ref": "example.com/v1.B"}`) + `, "example.com/v1.B": {"Schema": {"properties": {"a": {"$ref": "example.com/v1.A"}}}}}`,
 		`{"example.com/v1.Tree": ` + k8sType(`, "spec": {"$ref": "example.com/v1.Missing"}`) + `}`,
-		`{"example.com/v1.Tree": {}}`, `{"example.com/v1.Tree": null}`, `{"example.com/v1.Tree": ` + k8sType(`, "spec": {"$ref": 1}`) + `}`,
+		"", " \n", "# nothing\n", `{"example.com/v1.Tree": {}}`, `{"example.com/v1.Tree": null}`, `{"example.com/v1.Tree": ` + k8sType(`, "spec": {"$ref": 1}`) + `}`,
 		`{"example.com/v1.Tree": ` + k8sType(`, "ref": {"x-kubernetes-object-ref-api-version": "v1", "x-kubernetes-object-ref-kind": "ConfigMap", "$ref": "example.com/v1.Tree"}`) + `}`,
 	})
 	files["/w/schema.json"] = pickS(r, []string{"{", "{}", `{"definitions": {"x": {"x-kubernetes-group-version-kind": [{"kind": "Deployment", "group": "apps"}]}}}`, "definitions: 1"})
